@@ -39,6 +39,19 @@ func main() {
 		os.Exit(cmdReplay(os.Args[2:]))
 	case "selftest":
 		os.Exit(cmdSelftest(os.Args[2:]))
+	case "list":
+		// the registry as JSON (used by gen_design.py / gen_manifest.py)
+		ids := make([]string, 0, len(props))
+		for id := range props {
+			ids = append(ids, id)
+		}
+		sort.Strings(ids)
+		var out []*propDef
+		for _, id := range ids {
+			out = append(out, props[id])
+		}
+		b, _ := json.MarshalIndent(out, "", " ")
+		fmt.Println(string(b))
 	default:
 		usage()
 	}
@@ -53,9 +66,18 @@ func envSeed() int64 {
 	return 0
 }
 
+func envWorkers() int {
+	if s := os.Getenv("SYMGO_WORKERS"); s != "" {
+		if n, err := strconv.Atoi(s); err == nil && n > 0 {
+			return n
+		}
+	}
+	return runtime.NumCPU()
+}
+
 func defaultConfig() Config {
 	return Config{
-		Workers:       runtime.NumCPU(),
+		Workers:       envWorkers(),
 		MaxSteps:      20_000_000,
 		FeasTimeoutMs: 3000,
 		AssertTimeout: 20000,
